@@ -1,11 +1,11 @@
-import GA.Bridge.SeqBody
+import GA.Bridge.ChunkBody
 /-!
-# C10 / C02 on the interpreted bodies of the slice reinterpretations of src/lib.rs
+# C10 on the interpreted bodies of `chunks_from_slice(_mut)` / `slice_from_chunks(_mut)` (src/lib.rs)
 
-`tools/seqbody.py` lowers `from_slice`, `try_from_slice`, `from_mut_slice`, `chunks_from_slice(_mut)` and
-`slice_from_chunks(_mut)` statement by statement (guards, pure `let`s inlined, every `as_ptr()` / `as_mut_ptr()`, every
-`from_raw_parts(_mut)` / `&*(… as *const _)`) into `GA.Gen.SeqBody`; `MemBody.runViews` interprets them with pointer
-provenance.  The theorems say what the returned references are — for every `N` and every slice length.
+`tools/seqbody.py` lowers the functions statement by statement (guards, pure `let`s inlined, every `as_ptr()` / `as_mut_ptr()`,
+every `from_raw_parts(_mut)` / `&*(… as *const _)` / reference transmute) into `GA.Gen.SeqBody`; `MemBody.runViews` interprets
+them with pointer provenance.  The theorems say what the returned references are — for every `N` and every length.
+One module per function family (see `GA.Bridge.SeqBody`): a change to one family's bodies fails only the properties about it.
 -/
 namespace GA.Props.BodyViews
 open GA.MemBody GA.Gen GA.Bridge.SeqBody
@@ -37,36 +37,9 @@ theorem C10_body_flat (n len i : Nat) :
     runViews true SeqBody.sliceFromChunksMut ⟨n, len, i⟩ = .views [⟨0, len * n, true⟩] :=
   sliceFromChunks_body n len i
 
-/-- **C11** by-reference `flatten` / `unflatten` on the interpreted bodies: the regrouped reference is the receiver reference
-    retyped — same address, the same `N·M` (resp. `NM`) elements, shared for `&`, writable for `&mut` — so reads and writes
-    through it are reads and writes of the original storage -/
-theorem C11_body_regroup_views (n m nm i : Nat) :
-    runViews false SeqBody.flattenRef ⟨n, m, i⟩ = .views [⟨0, n * m, false⟩] ∧
-    runViews true SeqBody.flattenMut ⟨n, m, i⟩ = .views [⟨0, n * m, true⟩] ∧
-    runViews false SeqBody.unflattenRef ⟨n, nm, i⟩ = .views [⟨0, nm, false⟩] ∧
-    runViews true SeqBody.unflattenMut ⟨n, nm, i⟩ = .views [⟨0, nm, true⟩] :=
-  ⟨(regroupRef_body n m i).1, (regroupRef_body n m i).2.1, (regroupRef_body n nm i).2.2.1, (regroupRef_body n nm i).2.2.2⟩
-
-/-- **C02** `as_slice` / `as_mut_slice` — what every other borrowed view (`Deref`, `Borrow`, `AsRef`, `&`-iteration, indexing)
-    delegates to — on the interpreted bodies: the view starts at the array's address, has exactly `N` elements, is made from
-    the receiver reference itself and is writable only for `as_mut_slice` -/
-theorem C02_body_as_slice (n k i : Nat) :
-    runViews false SeqBody.asSlice ⟨n, k, i⟩ = .views [⟨0, n, false⟩] ∧
-    runViews true SeqBody.asMutSlice ⟨n, k, i⟩ = .views [⟨0, n, true⟩] :=
-  asSlice_body n k i
-
-/-- **C02** the checked slice → array-reference conversions succeed iff `len = N` (panic / `LengthError` / failed
-    assertion otherwise) and then alias the slice exactly: same address, `N` elements, writable only for the `&mut` form -/
-theorem C02_body_reinterpret_exact (n len i : Nat) :
-    (runViews false SeqBody.fromSlice ⟨n, len, i⟩ = if len ≠ n then .panic else .views [⟨0, n, false⟩]) ∧
-    (runViews false SeqBody.tryFromSlice ⟨n, len, i⟩ = if len ≠ n then .err else .views [⟨0, n, false⟩]) ∧
-    (runViews true SeqBody.fromMutSlice ⟨n, len, i⟩ = if len = n then .views [⟨0, n, true⟩] else .panic) :=
-  ⟨fromSlice_body n len i, tryFromSlice_body n len i, fromMutSlice_body n len i⟩
-
 /-! Runs, and bodies that differ by one statement. -/
 example : runViews false SeqBody.chunksFromSlice ⟨3, 11, 0⟩ = .views [⟨0, 9, false⟩, ⟨9, 2, false⟩] := by decide
 example : runViews true SeqBody.chunksFromSliceMut ⟨4, 3, 0⟩ = .views [⟨0, 0, true⟩, ⟨0, 3, true⟩] := by decide
-example : runViews false SeqBody.fromSlice ⟨4, 5, 0⟩ = .panic := by decide
 -- the pinned tree's `chunks_from_slice_mut` took `slice.as_mut_ptr()` twice: the second reborrow ends the first view
 -- (the defect found by Miri and repaired in /repo, KNOWN_FINDINGS.txt) — here it is `ub` by evaluation
 example : runViews true [.emptyIf (.eq .n (.lit 0)) (.eq .k (.lit 0)) 2 true,
@@ -82,23 +55,9 @@ example : runViews false [.emptyIf (.eq .n (.lit 0)) (.eq .k (.lit 0)) 2 false,
 example : runViews false [.ptrArg 0 false .k, .viewAt 0 0 (.lit 0) (.mul (.div .k .n) .n) false,
     .ptrArg 1 false .k, .viewAt 1 1 (.mul (.mul (.div .k .n) .n) (.lit 8)) (.sub .k (.mul (.div .k .n) .n)) false,
     .retViews [0, 1]] ⟨3, 11, 0⟩ = .ub := by decide
--- `try_from_slice` comparing byte sizes accepts any length for zero-sized elements: modelled as a guard that never fires
-example : runViews false [.errIf (.ne (.mul .k (.lit 0)) (.mul .n (.lit 0))), .ptrArg 0 false .k, .viewAt 0 0 (.lit 0) .n false, .retViews [0]]
-    ⟨3, 2, 0⟩ = .ub := by decide
-
--- `as_mut_slice` made from `self as *const Self` (a pointer that may not be written through)
-example : runViews true [.ptrSelf 0 false, .viewAt 0 0 (.lit 0) .n true, .retViews [0]] ⟨4, 0, 0⟩ = .ub := by decide
--- a view one element longer than the array
-example : runViews false [.ptrSelf 0 false, .viewAt 0 0 (.lit 0) (.add .n (.lit 1)) false, .retViews [0]] ⟨4, 0, 0⟩ = .ub := by decide
-
--- a `&mut` regrouped view made from `self.as_ptr()` (seed C11-11): not writable
-example : runViews true [.ptrArg 0 false .k, .viewAt 0 0 (.lit 0) .k true, .retViews [0]] ⟨3, 12, 0⟩ = .ub := by decide
 
 end GA.Props.BodyViews
 
-#print axioms GA.Props.BodyViews.C11_body_regroup_views
-#print axioms GA.Props.BodyViews.C02_body_as_slice
 #print axioms GA.Props.BodyViews.C10_body_chunks_partition
 #print axioms GA.Props.BodyViews.C10_body_chunks_zero
 #print axioms GA.Props.BodyViews.C10_body_flat
-#print axioms GA.Props.BodyViews.C02_body_reinterpret_exact
